@@ -16,9 +16,11 @@ import (
 
 // Result of one in-process request.
 type Result struct {
-	Rec   *httptest.ResponseRecorder
-	Panic any    // recovered panic value, nil if none
-	Stack string // stack of the panic
+	Hdr     http.Header // response headers as sent (snapshot at first write)
+	Trailer http.Header // response trailers as sent
+	Rec     *httptest.ResponseRecorder
+	Panic   any    // recovered panic value, nil if none
+	Stack   string // stack of the panic
 }
 
 // PanicSig returns a stable signature for a panic: the first larking frame.
@@ -57,6 +59,8 @@ func Serve(h http.Handler, r *http.Request) (res Result) {
 			res.Panic = p
 			res.Stack = string(debug.Stack())
 		}
+		rr := res.Rec.Result()
+		res.Hdr, res.Trailer = rr.Header, rr.Trailer
 	}()
 	h.ServeHTTP(res.Rec, r)
 	return res
